@@ -275,7 +275,7 @@ func (p *aresp) wire(r *mon.Rand, method string) []byte {
 	case "chunked":
 		w.WriteString("Transfer-Encoding: chunked\r\n")
 		if p.Trailer {
-			w.WriteString("Trailer: T\r\n")
+			w.WriteString("Trailer: x-tr-lower\r\n")
 		}
 		w.WriteString("\r\n")
 		b := p.Body
@@ -291,7 +291,7 @@ func (p *aresp) wire(r *mon.Rand, method string) []byte {
 		}
 		w.WriteString("0\r\n")
 		if p.Trailer {
-			w.WriteString("T: tv\r\n")
+			w.WriteString("x-tr-lower: tv\r\n")
 		}
 		w.WriteString("\r\n")
 	case "close":
@@ -506,14 +506,20 @@ func compareResp(o *crig.Outcome, p *aresp, method string, cf ccfg) string {
 		}
 	}
 	if p.Trailer {
+		// the trailer arrives as "x-tr-lower": a normalising client hands it out as
+		// X-Tr-Lower, one with DisableHeaderNamesNormalizing exactly as sent
+		wantName := "X-Tr-Lower"
+		if cf.noNorm {
+			wantName = "x-tr-lower"
+		}
 		ok := false
 		for _, t := range o.Trailers {
-			if wire.Canon(t[0]) == "T" && t[1] == "tv" {
+			if t[0] == wantName && t[1] == "tv" {
 				ok = true
 			}
 		}
 		if !ok {
-			return fmt.Sprintf("trailer T=tv lost (got %v)", o.Trailers)
+			return fmt.Sprintf("trailer %s=tv lost or renamed (got %v, normalising=%v)", wantName, o.Trailers, !cf.noNorm)
 		}
 	}
 	return ""
